@@ -24,13 +24,15 @@ pub fn project(ty: Ty, u: &Ep) -> Ep {
         },
         (Ty::Number, RV::Float(_)) => Ok(v.clone()),
         (Ty::Number, RV::Int(i)) => Ok(RV::Float(*i as f64)),
-        (Ty::String, _) => Err(EvalexprError::expected_string(real)),
-        (Ty::Int, _) => Err(EvalexprError::expected_int(real)),
-        (Ty::Float, _) => Err(EvalexprError::expected_float(real)),
-        (Ty::Number, _) => Err(EvalexprError::expected_number(real)),
-        (Ty::Boolean, _) => Err(EvalexprError::expected_boolean(real)),
-        (Ty::Tuple, _) => Err(EvalexprError::expected_tuple(real)),
-        (Ty::Empty, _) => Err(EvalexprError::expected_empty(real)),
+        // the variants are written out: the library's own constructor functions are part of what is
+        // being checked and must not build the expectation
+        (Ty::String, _) => Err(EvalexprError::ExpectedString { actual: real }),
+        (Ty::Int, _) => Err(EvalexprError::ExpectedInt { actual: real }),
+        (Ty::Float, _) => Err(EvalexprError::ExpectedFloat { actual: real }),
+        (Ty::Number, _) => Err(EvalexprError::ExpectedNumber { actual: real }),
+        (Ty::Boolean, _) => Err(EvalexprError::ExpectedBoolean { actual: real }),
+        (Ty::Tuple, _) => Err(EvalexprError::ExpectedTuple { actual: real }),
+        (Ty::Empty, _) => Err(EvalexprError::ExpectedEmpty { actual: real }),
     }
 }
 
